@@ -109,6 +109,7 @@ def parseOffset (e : Env) (p : PS) : Option (Option Int × PS) :=
           | some (mm, p3) =>
             if mm > 59 then none else
             let off := hh * 60 + mm
+            if off > 840 then none else
             some (some (if ctrl = '-' then off * (-1) else off * 1), p3)
     else none
 
